@@ -449,7 +449,9 @@ def fam_units(T=3):
     ids = Ids()
     out = []
     for st, pr, ec in itertools.product([dict(size=2, cin=1, cout=1, inflow=1, end=1, coststore=1), dict(size=3, cin=2, cout=1, start=1, end=1, eff=(1, 2), costin=1, coststore=2),
-                                         dict(size=2, cin=1, cout=2, maxhold=1)], ([1, 5, 2], [4, 1, 3]), (0, 1)):
+                                         dict(size=2, cin=1, cout=2, maxhold=1),
+                                         # a storage that starts after the first step: what has accumulated counts from ITS start (inflow, holding cost)
+                                         dict(size=3, cin=1, cout=2, inflow=1, end=1, coststore=1, ws=2)], ([1, 5, 2], [4, 1, 3]), (0, 1)):
         a = [F.contract(T, 'n1', -2, 2, pr, ec=ec), F.storage(T, 'n1', **st), F.transport(T, 'n1', 'n2', 0, 1, eff=(1, 2), cost=1),
              F.contract(T, 'n2', -1, 1, 3, takes=[dict(s=-1, e=2, vol=1, sense='max')], force_contract=True)]
         out.append(F.make_cfg(ids(), T, a))
